@@ -1,4 +1,6 @@
 """C14 - parsed objects are values: equality, hashing, copying and repr agree."""
+import sys
+
 import engine
 import objcheck
 import tlc
@@ -131,6 +133,31 @@ def value_worker(case):
                   'info': [o._metadata.position_info.start.index, o._metadata.position_info.end.index]}
     except BaseException as e:  # noqa
         parsed = {'exc': [type(e).__name__, str(e)[:150]]}
+    # the built-in node classes of operator tables (Infix / Prefix / Postfix) are values like any class instance
+    try:
+        import sourcer
+        gops = ('grammar vgobjs_ops\nstart = E\nE = N between {\n    prefix: "-"\n    postfix: "!"\n    left: "+"\n}\n'
+                'class N {\n    d: /[0-9]/\n}\n')
+        om = sourcer.Grammar(gops)
+        t = om.parse('-1!+2')
+        nodes = [n for n in om.visit(t)]
+        kinds = sorted({type(n).__name__ for n in nodes})
+        res = []
+        for n in nodes:
+            d = n._asdict()
+            res.append(list(d) == list(type(n)._fields) and type(n)(**d) == n and n._replace() == n
+                       and n._replace(**d) == n and copy.deepcopy(n) == n and pickle.loads(pickle.dumps(n)) == n
+                       and eval(repr(n), dict(om.__dict__)) == n and hash(n._replace()) == hash(n))
+        parsed['operator_nodes'] = [kinds == ['Infix', 'N', 'Postfix', 'Prefix']] + res
+        # the same description compiled again under its name: the objects of the new module are values, too
+        om2 = sourcer.Grammar(gops)
+        t2 = om2.parse('-1!+2')
+        parsed['recompiled'] = [pickle.loads(pickle.dumps(t2)) == t2, copy.deepcopy(t2) == t2,
+                                eval(repr(t2), dict(om2.__dict__)) == t2, type(t2).__module__ == 'vgobjs_ops']
+    except BaseException as e:  # noqa
+        parsed['operator_nodes_exc'] = [False, type(e).__name__, str(e)[:150]]
+    finally:
+        sys.modules.pop('vgobjs_ops', None)
     out['parsed'] = parsed
     return {'id': case['id'], 'desc': None, 'build': ['ok'], 'obs': out}
 
